@@ -64,14 +64,38 @@ def _install_tracer():
     T["installed"] = True
 
 
+class CpuBudgetExceeded(BaseException):
+    pass
+
+
+CPU_LIMIT_S = 8.0        # CPU seconds of this process for one decode call (inputs are <= ~150 kB; the slowest legitimate one takes < 0.1 s)
+
+
+def _on_cpu_alarm(signum, frame):
+    raise CpuBudgetExceeded()
+
+
 def traced_call(fn, arg, budget):
-    """Run fn(arg) counting steps in bromelia code; abort with StepBudgetExceeded when the budget is exceeded."""
+    """Run fn(arg) counting steps in bromelia code; abort with StepBudgetExceeded when the budget is exceeded.  Time spent below the
+    interpreter (a regular expression that backtracks, a C-level loop) produces no steps: a CPU-time alarm (ITIMER_VIRTUAL: user CPU time
+    of this process, not wall-clock time, so machine load does not matter) ends such a call with CpuBudgetExceeded."""
+    import signal
+    import threading
     _install_tracer()
     _TRACE.update(active=True, count=0, budget=budget)
+    armed = threading.current_thread() is threading.main_thread()
+    if armed:
+        old = signal.signal(signal.SIGVTALRM, _on_cpu_alarm)
+        # once one input of this process has exceeded the limit the finding is made: later calls get a short limit so that the rest of the
+        # run (which goes on, to find other root causes) stays cheap; a call cut short that way is reported under the same signature
+        signal.setitimer(signal.ITIMER_VIRTUAL, CPU_LIMIT_S if not _TRACE.get("cpu_exceeded") else 0.5, 1.0)
     try:
         return fn(arg), _TRACE["count"]
     finally:
         _TRACE["active"] = False
+        if armed:
+            signal.setitimer(signal.ITIMER_VIRTUAL, 0)
+            signal.signal(signal.SIGVTALRM, old)
 
 
 def judge(entry, data):
@@ -86,6 +110,11 @@ def judge(entry, data):
     except StepBudgetExceeded:
         return [V("decoding terminates within a step bound that depends only on the input length",
                   f"{entry}/step-bound", f"more than {step_bound(n)} steps (function entries + jumps in bromelia) for {n} bytes: {data.hex()[:80]}")]
+    except CpuBudgetExceeded:
+        _TRACE["cpu_exceeded"] = True
+        return [V("decoding terminates within a bound that depends only on the input length",
+                  f"{entry}/cpu-bound", f"not finished after {CPU_LIMIT_S} s of CPU time for {n} bytes (few interpreter steps: the time is spent in C code, "
+                                        f"e.g. a backtracking regular expression): {data.hex()[:160]}")]
     except errors:
         return []
     except RecursionError as e:
@@ -134,6 +163,13 @@ def apply_mutation(case):
     m = case["mut"]
     if m["k"] == "raw":
         return bytes.fromhex(m["x"])
+    if m["k"] == "uri":
+        # a DiameterURI AVP (Redirect-Host) whose text starts like a URI and goes wrong late: long label runs, then something illegal
+        host = (m["ch"] * 80)[:m["run"]]
+        if m.get("dots"):
+            host = ".".join([host[i:i + m["dots"]] for i in range(0, len(host), m["dots"])])
+        text = f"{m['scheme']}://{host}{m['suffix']}".encode("utf-8", "replace")
+        return rc.enc_msg(1, 0x80, 316, 16777251, 1, 2, [rc.enc_avp(292, 0x40, None, text)])
     if m["k"] == "nest":
         inner = b""
         for _ in range(m["depth"]):
@@ -212,7 +248,11 @@ special = st.one_of(
               st.sampled_from([1, 5, 50, 120, 200, 300, 400]),
               st.sampled_from([(279, None), (443, None), (1400, 10415), (628, 10415), (456, None)])),
 )
-cases = st.one_of(st.builds(lambda b, m: {"base": b, "mut": m}, c02.wire_stream(), mutation), special)
+URI_SUFFIXES = [";transport=tls", ";transport=", ":99999", ":", "!", " ", ";", ".", "..", "-", "/", "\n", ";protocol=diameter;transport=x", ":3868;", "\u00e9", ""]
+uri_text = st.builds(lambda sch, run, ch, dots, suf: {"base": None, "mut": {"k": "uri", "scheme": sch, "run": run, "ch": ch, "dots": dots, "suffix": suf}},
+                     st.sampled_from(["aaa", "aaas", "aaa", "AAA", "aaaa", "http"]), st.integers(1, 64), st.sampled_from(["a", "a-", "a1", "0", "x_", "ab."]),
+                     st.sampled_from([0, 0, 1, 3, 8]), st.sampled_from(URI_SUFFIXES))
+cases = st.one_of(st.builds(lambda b, m: {"base": b, "mut": m}, c02.wire_stream(), mutation), special, uri_text)
 
 
 def check_bytes(data):
@@ -228,6 +268,8 @@ def check_bytes(data):
 
 
 def run_case(case):
+    if case.get("kind") == "history":
+        return run_history(case)
     if case.get("kind") == "live":
         from . import c03_live
         return c03_live.run_case(case)
@@ -295,6 +337,11 @@ def _systematic(shard, seed, of):
                     b = bytearray(s)
                     b[fo:fo + 3] = val.to_bytes(3, "big")
                     jobs.append(bytes(b))
+    # DiameterURI texts that are right for a long while and wrong at the end
+    for run in (8, 16, 24, 28, 32, 40, 48, 56, 62, 64):
+        for suf in URI_SUFFIXES:
+            for ch, dots in (("a", 0), ("a1", 0), ("a-", 0), ("a", 8)):
+                jobs.append(apply_mutation({"base": None, "mut": {"k": "uri", "scheme": "aaa", "run": run, "ch": ch, "dots": dots, "suffix": suf}}))
     # deep nesting, judged outside Hypothesis (which raises the interpreter's recursion limit while a test runs)
     for depth in (10, 100, 250, 330, 400, 500, 1000, 2000):
         for code, vendor in ((279, None), (1400, 10415), (456, None)):
@@ -310,10 +357,64 @@ def _systematic(shard, seed, of):
     return col
 
 
+def history_inputs():
+    """(name, bytes) of inputs that are refused, to be fed many times to one decoder (= one process / one thread)"""
+    out = []
+    for depth, code, vendor in ((40, 279, None), (200, 1400, 10415), (400, 279, None), (2000, 1400, 10415)):
+        out.append((f"nest-{depth}-{code}", apply_mutation({"base": None, "mut": {"k": "nest", "depth": depth, "code": code, "vendor": vendor}})))
+    bad_leaf = rc.enc_avp(268, 0x40, None, b"\x00\x00\x07")                       # Result-Code with 3 octets
+    for levels in (1, 2, 3):
+        inner = bad_leaf
+        for _ in range(levels):
+            inner = rc.enc_avp(279, 0x40, None, inner)
+        out.append((f"bad-member-{levels}-levels-down", rc.enc_msg(1, 0x80, 316, 16777251, 1, 2, [inner])))
+    out.append(("truncated-grouped", rc.enc_msg(1, 0x80, 316, 16777251, 1, 2, [rc.enc_avp(279, 0x40, None, rc.enc_avp(1, 0x40, None, b"user")[:-3])])))
+    out.append(("unknown-enumerator-in-grouped", rc.enc_msg(1, 0x80, 316, 16777251, 1, 2,
+                                                            [rc.enc_avp(279, 0x40, None, rc.enc_avp(277, 0x40, None, (99).to_bytes(4, "big")))])))
+    return out
+
+
+def run_history(case):
+    """one decoder lives through `reps` refused inputs and is then probed: every single call must satisfy the oracle, whatever came before"""
+    inputs = dict(history_inputs())
+    data = inputs[case["poison"]]
+    for i in range(case["reps"]):
+        vs = judge("msg", data)
+        if vs:
+            for v in vs:
+                v.sig = "history/" + v.sig + "/after-earlier-refused-inputs"
+                v.detail = f"input {case['poison']} fed {i + 1} times: " + v.detail
+            return vs
+    for name, probe in history_inputs():
+        if name.startswith("nest-"):
+            vs = judge("msg", probe)
+            if vs:
+                for v in vs:
+                    v.sig = "history/" + v.sig + "/after-earlier-refused-inputs"
+                    v.detail = f"after {case['reps']} x {case['poison']}, probe {name}: " + v.detail
+                return vs
+    return []
+
+
+def _histories(shard, seed, of, reps):
+    common.bootstrap()
+    refdict.all_classes()
+    col = Collector(PID, RULE)
+    for i, (name, _) in enumerate(history_inputs()):
+        if i % of != shard:
+            continue
+        # deeply nested inputs are expensive to refuse (about 0.1 s each): fewer repetitions, except for one of them
+        r = reps if not name.startswith("nest-") else (reps * 4 // 5 if name == "nest-400-279" else reps // 7)
+        case = {"kind": "history", "poison": name, "reps": r}
+        col.record(case, run_history(case), nontrivial=True, classes=["history-of-refused-inputs"])
+    return col
+
+
 def main(ctx):
     n = 8 if ctx.quick else 16
     col = common.run_shards(_collect, 4 if ctx.quick else n, ctx.seed, n=500 if ctx.quick else 20000)
     col.merge(common.run_shards(_systematic, n, ctx.seed, of=n))
+    col.merge(common.run_shards(_histories, n, ctx.seed, of=n, reps=420 if ctx.quick else 1500))
     col.extra["systematic_scope"] = "every truncation point and every length field x {0..40, true+-1..4, 2^16, 2^24-1} of CER, ULR(with Grouped) and their concatenation"
     try:
         from . import c03_live
@@ -329,7 +430,7 @@ def main(ctx):
     for path, rec in common.load_replays(PID):
         col.record(rec["case"], run_case(rec["case"]), nontrivial=True, classes=["replay"])
     ctx.required_classes = ["mut=truncate", "mut=msglen", "mut=avplen", "mut=flipV", "mut=code", "mut=raw", "mut=nest", "length<20",
-                            "malformed-by-reference", "systematic"]
+                            "malformed-by-reference", "systematic", "history-of-refused-inputs", "mut=uri"]
     ctx.assumptions = ["step bound = 5000 + 400*n + n*n/16 steps for n input bytes (steps = function entries + unconditional jumps in bromelia code, via sys.monitoring); deterministic, no wall-clock verdicts",
                        "library error types = every class defined in bromelia.exceptions"]
 
